@@ -12,9 +12,10 @@ def build(driver, sources, extra=()):
     files = [os.path.join(ROOT, 'replay', driver)] + [os.path.join(REPO, s) for s in sources]
     for f in files:
         h.update(open(f, 'rb').read())
-    for root, _, fs in os.walk(os.path.join(REPO, 'include')):
-        for f in sorted(fs):
-            h.update(open(os.path.join(root, f), 'rb').read())
+    for top in ('include', 'src'):       # drivers may #include repository .cpp files directly
+        for root, _, fs in sorted(os.walk(os.path.join(REPO, top))):
+            for f in sorted(fs):
+                h.update(open(os.path.join(root, f), 'rb').read())
     exe = os.path.join(outdir, os.path.splitext(driver)[0] + '-' + h.hexdigest()[:12])
     if not os.path.exists(exe):
         cmd = ['g++', '-std=c++20', '-O1', '-I' + os.path.join(REPO, 'include'), '-I' + REPO, '-D_FILE_OFFSET_BITS=64'] + list(extra) + files + ['-o', exe, '-lpthread']
@@ -26,7 +27,8 @@ def build(driver, sources, extra=()):
 
 def run(exe, args, timeout=20):
     try:
-        r = subprocess.run([exe] + [str(a) for a in args], stdout=subprocess.PIPE, stderr=subprocess.STDOUT, timeout=timeout)
+        env = dict(os.environ, ASAN_OPTIONS='detect_leaks=0')
+        r = subprocess.run([exe] + [str(a) for a in args], stdout=subprocess.PIPE, stderr=subprocess.STDOUT, timeout=timeout, env=env)
         return r.returncode, r.stdout.decode(errors='replace')[-2000:]
     except subprocess.TimeoutExpired:
         return 124, 'timeout'
